@@ -27,7 +27,9 @@ THEOREMS = [A + t for t in ["C08_time_decreases", "C08_loop_terminates", "C08_ea
 THEOREMS_R = [B + t for t in ["C08_mirror_normal", "C08_mirror_tangential", "C08_mirror_explicit", "C08_mirror_speed", "C08_mirror_speed_norm",
                               "C08_mirror_position", "C08_bounce_back", "C08_bounce_back_speed", "C08_stochastic_speed", "C08_stochastic_inward",
                               "C08_stochastic_position", "C08_reemitted_inside", "C08_mirror_rat_instance", "C08_bounce_back_rat_instance"]]
-MODULES = ["Sympler.Collide", "Sympler.CollideLemmas", "Sympler.CollideStepLemmas", "PropsR.Gen.ReflectorsReal", "Props.C08", "PropsR.C08"]
+BR = ["Sympler.Collide." + t for t in ["Bridge_hitTime", "Bridge_wallHit", "Bridge_better", "Bridge_remaining", "Bridge_loop_constants"]]
+MODULES = ["Sympler.Collide", "Sympler.CollideLemmas", "Sympler.CollideStepLemmas", "PropsR.Gen.ReflectorsReal", "Sympler.Gen.CollideGen", "Props.C08", "Props.CollideBridge", "PropsR.C08"]
+TR2 = "translator t_collide (loop bound and per-pass reset of Cell::doCollision, earliest-hit comparison, WallTriangle::hit time tests, linear hit time, hitPos, epsilons)"
 TR = "translator t_reflectors (ReflectorMirror / BounceBack / Stochastic ::reflect by symbolic execution)"
 
 
@@ -39,7 +41,13 @@ def run(ctx):
         ctx.oblige(TR, True)
     except Exception as ex:
         ctx.oblige(TR, False, repr(ex))
-    common.lean_obligations(ctx, ["Props.C08", "PropsR.C08", "Sympler.Collide", "symdrv"], ["Props.C08", "PropsR.C08"], THEOREMS + THEOREMS_R, MODULES)
+    try:
+        import t_collide
+        common.write_if_changed(os.path.join(common.LEAN, "Sympler/Gen/CollideGen.lean"), t_collide.generate(common.REPO))
+        ctx.oblige(TR2, True)
+    except Exception as ex:
+        ctx.oblige(TR2, False, repr(ex))
+    common.lean_obligations(ctx, ["Props.C08", "Props.CollideBridge", "PropsR.C08", "Sympler.Collide", "symdrv"], ["Props.C08", "Props.CollideBridge", "PropsR.C08"], THEOREMS + BR + THEOREMS_R, MODULES)
     n = 120 if not ctx.thorough else 4000
     workers = 12
     per = (n + workers - 1) // workers
